@@ -217,7 +217,11 @@ func (p *printer) stmt(s Stmt) {
 	case *ExprStmt:
 		p.line("%s;", ExprSrc(s.E))
 	case *StaticDecl:
-		p.line("static $%s = %d;", s.V.Name, s.Init)
+		if s.IsStr {
+			p.line("static $%s = '%s';", s.V.Name, s.StrInit)
+		} else {
+			p.line("static $%s = %d;", s.V.Name, s.Init)
+		}
 	case *Try:
 		p.line("try {")
 		p.block(s.Body)
